@@ -44,6 +44,12 @@ public:
             throw_error("can't open file: `{}`", path);
         }
         output_stream << data;
+        // `close()` flushes the data, both can fail (e.g. no space left)
+        output_stream.close();
+        if(!output_stream)
+        {
+            throw_error("can't write file: `{}`", path);
+        }
     }
 
     void create_directories(const std::filesystem::path& path) override
